@@ -8,6 +8,7 @@ import (
 	"sort"
 	"strings"
 
+	"github.com/reeflective/readline"
 	"github.com/reeflective/readline/inputrc"
 
 	"verif/fw"
@@ -19,11 +20,15 @@ type c13Case struct {
 	Prog  []rcNode            `json:"prog"`
 	Files map[string][]rcNode `json:"files,omitempty"`
 	Envs  []rcEnv             `json:"envs"`
+	// the program is also loaded the way an application does: NewShell with INPUTRC naming the
+	// file and the (mode, term, app) options
+	Shell bool `json:"shell,omitempty"`
 }
 
 func c13Gen(r *rand.Rand, tier string, idx int) any {
 	prog, files := genProgram(r)
 	c := c13Case{Prog: prog, Files: files}
+	c.Shell = idx%10 == 0 && len(files) == 0
 	for i := 0; i < 8; i++ {
 		c.Envs = append(c.Envs, rcEnv{Mode: pick(r, rcModes), Term: pick(r, rcTerms), App: pick(r, rcApps)})
 	}
@@ -33,7 +38,22 @@ func c13Gen(r *rand.Rand, tier string, idx int) any {
 func libResult(cfg *inputrc.Config) rcResult {
 	res := rcResult{Binds: map[string]map[string]rcBind{}, Vars: map[string]string{}}
 	for km, m := range cfg.Binds {
-		for seq, b := range m {
+		// Meta-x may be stored as 0x80|x or as ESC x and both are normalised to one key: when a
+		// configuration holds both (the default one binds every byte 0x80-0xff to self-insert),
+		// the ESC form, which is what a key sequence written in a file gives, is the one kept
+		var seqs []string
+		for seq := range m {
+			seqs = append(seqs, seq)
+		}
+		sort.Slice(seqs, func(i, j int) bool {
+			ei, ej := strings.ContainsRune(seqs[i], 0x1b), strings.ContainsRune(seqs[j], 0x1b)
+			if ei != ej {
+				return !ei
+			}
+			return seqs[i] < seqs[j]
+		})
+		for _, seq := range seqs {
+			b := m[seq]
 			if res.Binds[km] == nil {
 				res.Binds[km] = map[string]rcBind{}
 			}
@@ -153,8 +173,162 @@ func c13Run(env *fw.Env, raw json.RawMessage) fw.Outcome {
 		o.Viol(sig, fmt.Sprintf("env=%+v parse error=%v\nin the configuration but not expected: %v\nexpected but absent/different: %v\nprogram:\n%s%s", e, perr, extra, missing, clampStr(text, 1500), clampStr(strings.Join(ftxt, ""), 800)))
 		break
 	}
+	if c.Shell && len(o.O.Findings) == 0 && !strings.Contains(text, "disable-completion") && !strings.Contains(text, "editing-mode") {
+		c13ShellPath(env, &c, text, depth, &o)
+	}
 	o.O.Sample = map[string]any{"program": clampStr(text, 400), "envs": len(c.Envs), "depth": depth}
 	return o.O
+}
+
+// overlay applies the result of an evaluation on top of a base configuration.
+func overlay(base, top rcResult) rcResult {
+	res := rcResult{Binds: map[string]map[string]rcBind{}, Vars: map[string]string{}}
+	for km, m := range base.Binds {
+		res.Binds[km] = map[string]rcBind{}
+		for k, v := range m {
+			res.Binds[km][k] = v
+		}
+	}
+	for k, v := range base.Vars {
+		res.Vars[k] = v
+	}
+	for km, m := range top.Binds {
+		if res.Binds[km] == nil {
+			res.Binds[km] = map[string]rcBind{}
+		}
+		for k, v := range m {
+			res.Binds[km][k] = v
+		}
+	}
+	for k, v := range top.Vars {
+		res.Vars[k] = v
+	}
+	return res
+}
+
+// c13ShellPath: the start-up path of an application. Expected = the configuration of a Shell
+// started without any user file, with the program's live directives on top.
+func c13ShellPath(env *fw.Env, c *c13Case, text string, depth int, o *fw.Out) {
+	path := env.Scratch + "/c13.inputrc"
+	os.WriteFile(path, []byte(text), 0o644)
+	old, had := os.LookupEnv("INPUTRC")
+	defer func() {
+		if had {
+			os.Setenv("INPUTRC", old)
+		} else {
+			os.Unsetenv("INPUTRC")
+		}
+		os.Remove(path)
+	}()
+	for _, e := range c.Envs[:2] {
+		opts := []inputrc.Option{inputrc.WithMode(e.Mode), inputrc.WithTerm(e.Term), inputrc.WithApp(strings.ToLower(e.App))}
+		os.Setenv("INPUTRC", "/dev/null")
+		base := libResult(readline.NewShell(opts...).Config)
+		os.Setenv("INPUTRC", path)
+		var got rcResult
+		var perr error
+		func() {
+			defer func() {
+				if p := recover(); p != nil {
+					perr = fmt.Errorf("panic: %v", p)
+				}
+			}()
+			got = libResult(readline.NewShell(opts...).Config)
+		}()
+		o.O.Events++
+		o.Add("programs_loaded_through_newshell", 1)
+		if perr != nil {
+			o.Viol("shell-startup-panic-on-well-formed-program", fmt.Sprintf("env=%+v %v\n%s", e, perr, clampStr(text, 1500)))
+			return
+		}
+		// Only what the program mentions (in any branch) is compared: the rest is the library's
+		// default configuration, part of which differs from one NewShell to the next (the
+		// built-in Vi arrow-key binds are loaded in map order).
+		live := evalProgram(c.Prog, e)
+		mentioned := rcResult{Binds: map[string]map[string]rcBind{}, Vars: map[string]string{}}
+		for _, m := range rcModes {
+			for _, t := range rcTerms {
+				for _, a := range append([]string{"go"}, rcApps...) {
+					mentioned = overlay(mentioned, evalProgram(c.Prog, rcEnv{Mode: m, Term: t, App: a}))
+				}
+			}
+		}
+		mentioned = overlay(mentioned, evalProgram(c.Prog, rcEnv{Mode: "", Term: "", App: "go"}))
+		os.Setenv("INPUTRC", "/dev/null")
+		base2 := libResult(readline.NewShell(opts...).Config)
+		os.Setenv("INPUTRC", path)
+		cmds := shellCommands()
+		show := func(km, k string, b rcBind, ok bool) string {
+			if !ok {
+				return fmt.Sprintf("bind %s %q -> (unbound)", km, k)
+			}
+			return fmt.Sprintf("bind %s %q -> %q macro=%v", km, k, b.Action, b.Macro)
+		}
+		// diff compares the Shell's configuration with a model, on what the program mentions
+		diff := func(model rcResult) (extra, missing []string) {
+			for km, m := range mentioned.Binds {
+				for k := range m {
+					g, gok := got.Binds[km][k]
+					if w, ok := model.Binds[km][k]; ok {
+						// a function name the Shell does not know is not kept as written
+						if !w.Macro && !cmds[w.Action] {
+							continue
+						}
+						if !gok || g != w {
+							extra = append(extra, show(km, k, g, gok))
+							missing = append(missing, show(km, k, w, true))
+						}
+						continue
+					}
+					b1, ok1 := base.Binds[km][k]
+					b2, ok2 := base2.Binds[km][k]
+					if (gok == ok1 && g == b1) || (gok == ok2 && g == b2) {
+						continue
+					}
+					extra = append(extra, show(km, k, g, gok))
+					missing = append(missing, show(km, k, b1, ok1))
+				}
+			}
+			for k := range mentioned.Vars {
+				g := got.Vars[k]
+				w, ok := model.Vars[k]
+				if !ok {
+					w = base.Vars[k]
+				}
+				if !strings.EqualFold(g, w) {
+					extra = append(extra, "var "+k+"="+g)
+					missing = append(missing, "var "+k+"="+w)
+				}
+			}
+			sort.Strings(extra)
+			sort.Strings(missing)
+			return
+		}
+		extra, missing := diff(live)
+		if len(extra) == 0 && len(missing) == 0 {
+			continue
+		}
+		// Known deviations of the pinned start-up path, each recognised by its exact model:
+		// (A) the file is parsed twice, first as application "go" without mode and terminal, and
+		// what that pass applies stays unless the second pass overrides it; (B) C13's known
+		// deviation of the parser (an inner $if ignores an inactive enclosing block); (A+B).
+		firstEnv := rcEnv{Mode: "", Term: "", App: "go"}
+		known := ""
+		if x, m := diff(overlay(evalProgram(c.Prog, firstEnv), live)); len(x)+len(m) == 0 {
+			known = "shell-startup-applies-else-branches-of-a-first-parse-as-application-go"
+		} else if x, m := diff(evalProgramX(c.Prog, e, true)); len(x)+len(m) == 0 {
+			known = "inner-if-evaluated-although-enclosing-block-inactive"
+		} else if x, m := diff(overlay(evalProgramX(c.Prog, firstEnv, true), evalProgramX(c.Prog, e, true))); len(x)+len(m) == 0 {
+			known = "shell-startup-applies-else-branches-of-a-first-parse-as-application-go+inner-if-evaluated-although-enclosing-block-inactive"
+		}
+		if known != "" {
+			o.Viol(known, fmt.Sprintf("NewShell with INPUTRC=<program>, env=%+v: the configuration equals the model of the known deviation(s)\nin the configuration but not expected: %v\nexpected but absent/different: %v\nprogram:\n%s", e, tail(extra, 6), tail(missing, 6), clampStr(text, 1500)))
+			return
+		}
+		sig := "shell-startup|" + c13Classify(extra, missing, depth)
+		o.Viol(sig, fmt.Sprintf("NewShell with INPUTRC=<program>, env=%+v\nin the configuration but not expected: %v\nexpected but absent/different: %v\nprogram:\n%s", e, tail(extra, 6), tail(missing, 6), clampStr(text, 1500)))
+		return
+	}
 }
 
 func c13Classify(extra, missing []string, depth int) string {
@@ -191,9 +365,9 @@ func init() {
 	fw.Register(&fw.Prop{
 		ID:    "C13",
 		Level: "exploration",
-		Rule: "well-formed inputrc programs generated as an AST ($if mode=/term=/app nested up to depth 5, $else at any level, set keymap inside/outside inactive blocks, set of bool/int/string variables incl. one-character values, quoted-sequence and key-name binds, macros, comments, blank lines, $include of generated files served through ReadFileFunc), rendered to text and parsed into an empty Config under 8 (mode, term, app) settings each; oracle = Config.Binds/Config.Vars equal the maps computed by a reference evaluator over the AST (Meta-x accepted as 0x80|x or ESC x; variable values compared as text, on/off case-insensitively). " +
+		Rule: "well-formed inputrc programs generated as an AST ($if mode=/term=/app nested up to depth 5, $else at any level, set keymap inside/outside inactive blocks, set of bool/int/string variables incl. one-character values, quoted-sequence and key-name binds, macros, comments, blank lines, $include of generated files served through ReadFileFunc), rendered to text and parsed into an empty Config under 8 (mode, term, app) settings each; oracle = Config.Binds/Config.Vars equal the maps computed by a reference evaluator over the AST (Meta-x accepted as 0x80|x or ESC x; variable values compared as text, on/off case-insensitively). One program in ten (those without $include) is also loaded the way an application does - NewShell with INPUTRC naming the file and the (mode, term, app) options, under 2 settings - and everything the program mentions in any branch is compared with the live directives applied on top of the configuration of a Shell started without a user file (function names the Shell does not register are not compared). " +
 			"distinct non-trivial = distinct (max $if depth, live directive count class, include count) tuples",
-		Assumptions: []string{"$include appears only while the keymap is still the default one and included files contain no `set keymap` (what keymap an included file starts in is not fixed by the statement)", "term names without '-' (GNU's prefix rule for term= is not exercised)", "no two binds of one program share a sequence after Meta normalisation"},
+		Assumptions: []string{"$include appears (at any $if depth) only while no `set keymap` has been written earlier in the program and included files contain no `set keymap` (what keymap an included file starts in is not fixed by the statement)", "term names without '-' (GNU's prefix rule for term= is not exercised)", "no two binds of one program share a sequence after Meta normalisation"},
 		N: func(tier string) int {
 			if tier == "thorough" {
 				return 200000
@@ -203,4 +377,29 @@ func init() {
 		Gen: c13Gen,
 		Run: c13Run,
 	})
+}
+
+func has(m map[string]rcBind, k string) bool {
+	_, ok := m[k]
+	return ok
+}
+
+var shellCmds map[string]bool
+
+// shellCommands: the command names a Shell registers.
+func shellCommands() map[string]bool {
+	if shellCmds == nil {
+		old, had := os.LookupEnv("INPUTRC")
+		os.Setenv("INPUTRC", "/dev/null")
+		shellCmds = map[string]bool{}
+		for name := range readline.NewShell().Keymap.Commands() {
+			shellCmds[name] = true
+		}
+		if had {
+			os.Setenv("INPUTRC", old)
+		} else {
+			os.Unsetenv("INPUTRC")
+		}
+	}
+	return shellCmds
 }
